@@ -37,20 +37,37 @@ PRIVATE_STATE = {
     "Element": "DOM output objects are built by the serializer call that returns them",
     "DocumentFragment": "DOM output objects are built by the serializer call that returns them",
 }
-# reviewed keys (qualname, receiver, mutator) with a one-line justification
+# reviewed keys (file suffix, qualname, receiver, mutator, reaching definitions) with a one-line justification;
+# the reaching definitions are part of the key: a different definition of the receiver is a different site
 REVIEWED = {
-    ("transform/transform.py", "Transform.add_mark.iteratee", "removing.to", "assign"):
+    ("transform/transform.py", "Transform.add_mark.iteratee", "removing.to", "assign", ("None", "RemoveMarkStep(start, end, marks[i])")):
         "the RemoveMarkStep is in a local list and has not been applied or returned yet",
-    ("transform/transform.py", "Transform.add_mark.iteratee", "adding.to", "assign"):
+    ("transform/transform.py", "Transform.add_mark.iteratee", "adding.to", "assign", ("AddMarkStep(start, end, mark)", "None")):
         "the AddMarkStep is in a local list and has not been applied or returned yet",
-    ("transform/transform.py", "Transform.remove_mark.iteratee", "found[...]", "assign"):
+    ("transform/transform.py", "Transform.remove_mark.iteratee", "found[...]", "assign", ("None", "m")):
         "entries of the local `matched` list of plain dicts",
-    ("transform/step.py", "step_json_id", "STEPS_BY_ID[...]", "assign"):
+    ("transform/transform.py", "Transform.remove_mark.iteratee", "to_remove", "append", ("None", "[]", "[mark]", "node.marks")):
+        "append only happens in the MarkType branch where to_remove was just set to []; the alias to node.marks is only read",
+    ("transform/transform.py", "Transform.replace_range", "target_depths", "pop", ("covered_depths(from__, self.doc.resolve(to))",)):
+        "covered_depths returns a fresh list on every call",
+    ("transform/transform.py", "Transform.replace_range", "target_depths", "insert", ("covered_depths(from__, self.doc.resolve(to))",)):
+        "covered_depths returns a fresh list on every call",
+    ("transform/step.py", "step_json_id", "STEPS_BY_ID[...]", "assign", ("global",)):
         "the step registry is filled at import time",
-    ("transform/step.py", "step_json_id", "step_class.json_id", "assign"):
+    ("transform/step.py", "step_json_id", "step_class.json_id", "assign", ("param",)):
         "class attribute set once at import time",
-    ("test_builder", "*", "*", "*"): "test helper, not library code",
+    ("model/replace.py", "add_node", "target[...]", "assign", ("param",)):
+        "target is the fresh local list of the calling replace_two_way / replace_three_way / add_range",
+    ("model/replace.py", "add_node", "target", "append", ("param",)):
+        "target is the fresh local list of the calling replace_two_way / replace_three_way / add_range",
 }
+# builder functions whose local data structures never escape (content-expression compilation)
+BUILDER_FUNCS = {("model/content.py", "nfa"): "NFA under construction inside nfa()",
+                 ("model/content.py", "dfa"): "automaton under construction inside dfa()",
+                 ("model/content.py", "check_for_dead_ends"): "local work list"}
+# the DOM layer builds / consumes lxml elements and its own Element objects, not document values
+DOM_FILES = ("model/from_dom.py", "model/to_dom.py")
+FRAGMENT_HINTS = ("Fragment", "fill_before", ".content", "frag", ".append(", "close_node_start", "replace_child")
 
 
 def src(node):
@@ -215,20 +232,39 @@ def make_site(rel, fi, recv, op, lineno):
     return {"key": key, "cls": cls[0], "why": cls[1], "line": lineno}
 
 
+def param_class(fi, name):
+    """annotation (class name) of parameter `name` of fi or an enclosing function"""
+    cur = fi
+    while cur is not None:
+        a = cur.node.args
+        for arg in list(a.posonlyargs) + list(a.args) + list(a.kwonlyargs):
+            if arg.arg == name and arg.annotation is not None:
+                return src(arg.annotation).strip('"').split("[")[0].split(".")[-1]
+        cur = cur.parent
+    return None
+
+
 def classify(rel, fi, recv, rr, base, op, defs, fresh, is_param):
     fname = fi.qualname.split(".")[-1]
-    if rel.startswith("test_builder"):
-        return ("reviewed", REVIEWED[("test_builder", "*", "*", "*")])
-    # pure methods of the library's own immutable classes that share a name with a builtin mutator
-    if op in ("append", "remove", "add", "update", "insert", "pop") and isinstance(recv, (ast.Attribute, ast.Call, ast.Name)):
-        # Fragment.append / Mark.add_to_set etc. are not builtin mutators: receivers typed as library values
-        if rr.endswith(".content") and op == "append" and not rr.endswith(".content.content"):
-            return ("pure-method", "Fragment.append returns a new fragment")
-        if isinstance(recv, ast.Call):
-            return ("pure-method", "receiver is the result of a call (a fresh value or a library value with pure methods)")
+    dkey = tuple(sorted(set(defs)))
     for k, why in REVIEWED.items():
-        if k[0] != "test_builder" and rel.endswith(k[0]) and fi.qualname == k[1] and rr == k[2] and op == k[3]:
+        if rel.endswith(k[0]) and fi.qualname == k[1] and rr == k[2] and op == k[3] and dkey == tuple(sorted(set(k[4]))):
             return ("reviewed", why)
+    for (f, q), why in BUILDER_FUNCS.items():
+        if rel.endswith(f) and (fi.qualname == q or fi.qualname.startswith(q + ".")):
+            return ("private-state", why)
+    # `append` on a Fragment value is the library's own pure method, not list.append
+    if op == "append" and rr.endswith(".content") and not rr.endswith(".content.content"):
+        return ("pure-method", "Fragment.append returns a new fragment")
+    if op == "append" and base not in ("self", "cls"):
+        if isinstance(recv, ast.Call):
+            return ("pure-method", "receiver is the result of a call: Fragment.append returns a new fragment")
+        if rr.endswith(".content") and not rr.endswith(".content.content"):
+            return ("pure-method", "Fragment.append returns a new fragment")
+        if isinstance(recv, ast.Name) and not fresh and any(h in d for d in defs for h in FRAGMENT_HINTS) and "[]" not in defs:
+            return ("pure-method", "receiver is Fragment-typed (defined through Fragment.* / fill_before / .content / Fragment.append)")
+        if is_param and param_class(fi, base) == "Fragment":
+            return ("pure-method", "parameter annotated Fragment")
     if base == "self" or base == "cls":
         if fname in ("__init__", "__new__", "__post_init__"):
             return ("init", "object under construction")
@@ -240,15 +276,24 @@ def classify(rel, fi, recv, rr, base, op, defs, fresh, is_param):
         if c in PRIVATE_STATE:
             return ("private-state", PRIVATE_STATE[c])
         return ("external", "mutation of self outside construction")
+    if rel.endswith(DOM_FILES):
+        if fi.cls in PRIVATE_STATE and all(d.startswith(("self.", "iter:self.")) for d in defs):
+            return ("private-state", PRIVATE_STATE[fi.cls])
+        if is_param and param_class(fi, base) in PRIVATE_STATE:
+            return ("private-state", PRIVATE_STATE[param_class(fi, base)])
+        if not any(h in d.replace("DocumentFragment", "DocFrag") for d in defs for h in ("Fragment", ".content", "Mark(", "marks")) \
+                and "content" not in rr and "marks" not in rr:
+            return ("reviewed", "DOM layer: the receiver is an lxml element / parse rule / output element, not a document value")
     if base is not None and not is_param and defs != ["global"]:
         if fresh:
             return ("fresh", "every definition of the receiver in this function is a fresh container")
-        # a local bound to a value of a private-state / builder class
+        if fi.cls in PRIVATE_STATE and all(d.startswith(("self.", "iter:self.")) for d in defs):
+            return ("private-state", PRIVATE_STATE[fi.cls] + " (local alias of its own state)")
         return ("external", "receiver may alias a value that was passed in or returned earlier")
     if is_param:
-        # parameters of private helpers of builder classes
-        if fi.cls in PRIVATE_STATE:
-            return ("private-state", PRIVATE_STATE[fi.cls])
+        pc = param_class(fi, base)
+        if pc in PRIVATE_STATE:
+            return ("private-state", PRIVATE_STATE[pc])
         return ("external", "mutation of an argument")
     if defs == ["global"]:
         return ("external", "mutation of a module-level object")
